@@ -171,7 +171,9 @@ Proof.
   - destruct (find_include_A (n, this, false) p) as [p1 res] eqn:Ef.
     destruct (Rel_find _ _ _ _ _ HR Ef) as (q1 & -> & HR1 & _ & _).
     destruct res as [f|].
-    + destruct (run_file_A fuel f p1) as [p2|e] eqn:E2; [|discriminate].
+    + replace (once q1) with (once p1) by (destruct HR1 as (_ & _ & X & _); exact X).
+      destruct (mem_path f (once p1)); [apply IH; exact HR1|].
+      destruct (run_file_A fuel f p1) as [p2|e] eqn:E2; [|discriminate].
       destruct (run_file_sim fuel f f p1 q1 p2 eq_refl HR1 E2) as (q2 & -> & HR2). apply IH; exact HR2.
     + apply IH; exact HR1.
 Qed.
